@@ -251,8 +251,6 @@ def oracle(case, out):
             cconn = True
         elif p[0] == "c" and p[1] == "ret":
             cconn = False
-        elif p[1] == "lost" and cconn:
-            window = True
         elif p[1] == "estab" and not tup:
             window = True
         elif p[1] == "probe":
